@@ -1,6 +1,7 @@
 package hx
 
 import (
+	"regexp"
 	"fmt"
 	"math"
 	"sort"
@@ -675,6 +676,8 @@ func LeafOut(scalar string, enum *TypeDef, v Val) (out interface{}, class string
 	return nil, "borderline"
 }
 
+var rfc3339 = regexp.MustCompile(`^\d{4}-\d{2}-\d{2}T\d{2}:\d{2}:\d{2}(\.\d+)?(Z|[+-]\d{2}:\d{2})$`)
+
 // ShapeOK checks a normalised output value against the JSON shape of a scalar.
 func ShapeOK(scalar string, enum *TypeDef, out interface{}) bool {
 	if out == nil {
@@ -708,6 +711,10 @@ func ShapeOK(scalar string, enum *TypeDef, out interface{}) bool {
 	case "Time":
 		s, ok := out.(string)
 		if !ok {
+			return false
+		}
+		// (Go's parser is more liberal than RFC 3339: it takes a comma before the fraction and a one digit hour)
+		if !rfc3339.MatchString(s) {
 			return false
 		}
 		_, err := time.Parse(time.RFC3339Nano, s)
